@@ -275,6 +275,19 @@ func runC10(e *Env, p *Plan) {
 	if !e.S.Settle(3 * time.Second) {
 		return
 	}
+	// the honest stream paces itself (sleep, then yield): wait for its producer
+	// rather than for a fixed amount of time
+	st1 := e.Sub(1)
+	if !e.SettleUntil(func() bool {
+		st1.mu.Lock()
+		defer st1.mu.Unlock()
+		return st1.ProdDone || st1.ProdAbort || !st1.Handed
+	}, time.Second, 5*time.Minute) {
+		return
+	}
+	if !e.S.Settle(time.Second) {
+		return
+	}
 	w.CheckAllReturned("C10.server-keeps-answering")
 	for _, t := range e.SortedToks() {
 		if t.ID > 900 || !t.Returned || (t.Kind != "call" && t.Kind != "ctx") {
